@@ -129,6 +129,10 @@ func runFundProposal(ctx *action.Context, tx action.RawTx) (bool, action.Respons
 			Log: action.ErrWrongTxType.Wrap(err).Marshal(),
 		}
 	}
+	// a contribution is a positive amount (Validate only looks at the currency)
+	if fundProposal.FundValue.Value.BigInt().Sign() <= 0 {
+		return helpers.LogAndReturnFalse(ctx.Logger, action.ErrInvalidAmount, fundProposal.Tags(), errors.New("fund value must be positive"))
+	}
 	//1. check if proposal exists
 
 	proposal, err := ctx.ProposalMasterStore.Proposal.WithPrefixType(governance.ProposalStateActive).Get(fundProposal.ProposalId)
